@@ -58,7 +58,7 @@ def kind_of(k):
 def main(tier, seed, replay=None):
     run = Run(PROP, tier, seed, "proof")
     rng = random.Random(seed)
-    info, problems = proof_gate(PROP, THEOREMS, extra_modules=["Model.All", "Proofs.DbSpec"], thorough=(tier == "thorough"))
+    info, problems = proof_gate_multi([PROP, "C08Image"], thorough=(tier == "thorough"))
     for p in problems:
         run.tie("proof gate", p)
     drv = build_driver()
